@@ -32,7 +32,7 @@ def digits(v, w):
 
 def mk(pid, kinds, strict, source='string', perm=None, widths=None, T=60, sym_ids=False, sort_objects=False, tag='',
        mids=None, may_fail=True, rc_mid=None, sym_rc=None, rc_completed=False, merge_twice=False, ncs_ids=None,
-       same_basename=False, idlen=1):
+       same_basename=False, idlen=1, refs=None):
     """sym_ids: message IDs are symbolic digit strings of the given widths (used where no message fails:
     a failing merge formats its message ID into the error text, which realises the integer and turns
     one path into one path per value); otherwise they are the concrete ``mids``."""
@@ -49,6 +49,8 @@ def mk(pid, kinds, strict, source='string', perm=None, widths=None, T=60, sym_id
     if rc_mid:
         P['rc_mid'] = rc_mid
     P['ncs_ids'] = ncs_ids
+    if refs:
+        P['refs'] = refs
     P['same_basename'] = same_basename
     P['rc_completed'] = rc_completed
     P['merge_twice'] = merge_twice
@@ -76,12 +78,13 @@ def mk(pid, kinds, strict, source='string', perm=None, widths=None, T=60, sym_id
             if sym_rc and widths[a] == sym_rc:
                 pre.append('m%d != m_rc' % a)
     pre = str_pre(strs, idlen) + distinct(strs) + pre
-    cid = '%s/%s/%s/%s' % (pid, '+'.join(kinds), 'strict' if strict else 'non-strict', source)
+    kinds_s = '+'.join(kinds) if k <= 4 else '+'.join('%dx%s' % (list(kinds).count(x), x) for x in dict.fromkeys(kinds))
+    cid = '%s/%s/%s/%s' % (pid, kinds_s, 'strict' if strict else 'non-strict', source)
     if idlen != 1:
         cid += '/padded-or-prefix-ids'
-    if perm:
+    if perm and len(perm) <= 6:
         cid += '/perm-' + ''.join(map(str, perm))
-    cid += ('/symids-' + ''.join(map(str, widths))) if sym_ids else ('/ids-' + '-'.join(P['mids']))
+    cid += ('/symids-' + ''.join(map(str, widths))) if sym_ids else ('/ids-' + '-'.join(P['mids'][:4]) + ('-etc' if k > 4 else ''))
     if rc_mid:
         cid += '/roCreate-id-' + rc_mid
     if sym_rc:
@@ -100,6 +103,9 @@ def mk(pid, kinds, strict, source='string', perm=None, widths=None, T=60, sym_id
                 stubs=('hash',), timeout=T, cost=(2 ** k) * (k + 1), example=ex)
 
 
+ALL_KINDS = ['roStoryDelete', 'roStoryMove', 'roStoryReplace', 'roStoryInsert', 'roStoryAppend', 'roItemInsert',
+             'roItemDelete', 'EAStorySwap', 'EAStoryMove', 'roStorySend', 'roReadyToAir', 'roMetadataReplace', 'roReplace',
+             'roDelete']
 QUADS = [('roStoryMove', 'roStoryReplace', 'roDelete', 'roStoryAppend'),
          ('roItemInsert', 'roStoryDelete', 'EAStorySwap', 'roStorySend')]
 
@@ -144,6 +150,32 @@ def cells(tier):
         for strict in (True, False):
             out.append(mk(PID, tr, strict, 'string', T=T, mids=['9', '10', '100']))
             out.append(mk(PID, tr, strict, 's3', T=T, mids=['100', '10', '9'], perm=[2, 0, 3, 1]))
+    # every message type after the roDelete (each one is refused, in both modes; none is skipped)
+    for kind in ALL_KINDS[:-1]:     # (a second roDelete makes the collection invalid: C11)
+        for strict in (True, False):
+            out.append(mk(PID, ('roDelete', kind), strict, 'string', T=T, mids=['3', '20'], tag='after-roDelete'))
+    out.append(mk(PID, ('roDelete', 'roReadyToAir', 'roMetadataReplace'), False, 'file', T=T, mids=['3', '20', '100'],
+                  perm=[3, 2, 1, 0], tag='after-roDelete'))
+    # messages that share a message ID (re-transmissions): each failure is reported on its own
+    for pair in PAIRS[:4]:
+        for strict in (True, False):
+            out.append(mk(PID, pair, strict, 'string', T=T, mids=['20', '20'], tag='same-message-id'))
+    out.append(mk(PID, TRIPLES[1], False, 'string', T=T, mids=['7', '7', '7'], tag='same-message-id'))
+    # message IDs beyond 2**53 and beyond 2**64 that differ in the last digit only (order-dependent pair: the
+    # move and the delete name the same story)
+    for a, b in (('9007199254740993', '9007199254740992'), ('18446744073709551617', '18446744073709551616')):
+        for strict in (True, False):
+            out.append(mk(PID, ('roStoryMove', 'roStoryDelete'), strict, 'string', T=T, mids=[a, b], refs=[0, 0],
+                          tag='huge-ids'))
+        out.append(mk(PID, ('roStoryDelete', 'roStoryMove'), False, 'file', T=T, mids=[a, b], refs=[1, 1], perm=[2, 0, 1],
+                      tag='huge-ids'))
+    # many messages (more than any internal batch size), supplied in descending and in interleaved order
+    many = 70
+    mm = [str(1000 - 3 * j) for j in range(many)]
+    out.append(mk(PID, ('roMetadataReplace',) * many, True, 'string', T=T, mids=mm, may_fail=False, tag='70-messages-descending'))
+    inter = [i for i in range(0, many + 1, 2)] + [i for i in range(1, many + 1, 2)]
+    out.append(mk(PID, ('roMetadataReplace',) * many, False, 'file', T=T, mids=mm, may_fail=False, perm=inter,
+                  tag='70-messages-interleaved'))
     for q in QUADS if tier == 'thorough' else QUADS[:1]:
         for strict in (True, False):
             out.append(mk(PID, q, strict, 'string', T=2 * T))
